@@ -34,26 +34,34 @@ import gstools as gs
 ID = "C10"
 LEVEL = "exploration"
 RULE = (
-    "Hypothesis draws (class of the 17 shipped, dim 1-3, true var/len_scale/nugget/rescale/optional arguments, "
-    "5-15 bin centres covering 0.02-3 effective ranges in linear/log/random layout, data kind isotropic / directional "
-    "along the main axes with true anisotropy ratios 0.3-3 / lat-lon great-circle lags with geo_scale in "
-    "{1, 57.3, 6371, random}), a status fitted/deselected(False)/fixed value for every parameter, anis fitted/False/fixed, "
-    "sill None/True/False/value, init_guess 'current'/dict/dict+default:'current' (starts within +-30 % of the truth) or "
-    "'default', weights None/'inv'/array/list/callable, method trf/dogbox, loss linear/soft_l1/huber, max_eval None/int, "
-    "custom bounds through set_arg_bounds (containing or excluding the truth, all four open/closed types). Data are "
-    "noise-free variogram values of the true model evaluated by the oracle at its own lags (x/anis_i, chordal distance). "
-    "'recover_*' sub-checks put prescribed values at the truth, 'constrain_*' sub-checks perturb them, 'errors' generates "
-    "the documented ValueError inputs. Non-trivial: at least one constraint active (deselected/fixed parameter, sill, "
-    "custom bound, directional or lat-lon data) and some fitted parameter starting >= 10 % away from the truth (or the "
-    "start rule 'default'); distinct by hash of the rounded case (class, dim, selection pattern, truth all enter)."
+    "Hypothesis draws (class of the 17 shipped, dim 1-3, true var 0.05-50 / len_scale 0.05-50 / nugget 0 or 0.02-2 var / "
+    "rescale / optional arguments, 5-15 bin centres covering 0.02-3 effective ranges in linear/log/random layout, data kind "
+    "isotropic / directional along the main axes with true anisotropy ratios 0.3-3 / lat-lon great-circle lags with "
+    "geo_scale in {1, 57.3, 6371, random}), a status fitted/deselected(False)/fixed value for every parameter, anis "
+    "fitted/False/fixed, sill None/True/False/value, init_guess 'current'/dict/dict+default:'current' (starts within +-30 % "
+    "of the truth) or 'default', weights None/'inv'/array/list/callable, method trf/dogbox, loss linear/soft_l1/huber, "
+    "max_eval None/int, custom bounds through set_arg_bounds (containing or excluding the truth, all four open/closed "
+    "types). Data are noise-free variogram values of the true model evaluated by the oracle at its own lags (x/anis_i, "
+    "chordal distance). 'recover_*' sub-checks put prescribed values at the truth, 'constrain_*' sub-checks perturb them "
+    "(prescribed values, sill, bounds, start), 'errors' generates the documented ValueError inputs. Every successful call is "
+    "checked for: returned dict == model state, number of fitted parameters (pcov shape), prescribed values bit-identical, "
+    "values inside bounds, sill identity, returned r2 == r2 of the model state, cost(result) <= cost(documented start). "
+    "Recovery of curve / r2 / parameters is asserted when the oracle finds the truth reachable (prescribed values, sill, "
+    "bounds consistent with the truth; documented start within 30 %) in the identifiable configuration (labels "
+    "'recovery_expected' vs 'reachable_but_*'). Non-trivial: at least one constraint active (deselected/fixed parameter, "
+    "sill, custom bound, directional or lat-lon data) and some fitted parameter starting >= 10 % away from the truth (or "
+    "the start rule 'default'); distinct by hash of the rounded case (class, dim, selection pattern, truth all enter)."
 )
 ASSUMPTIONS = [
-    "CovModel.variogram(r) of a freshly constructed model is the model's variogram (C03); construction and the public "
-    "setters store the given values (C14). The data, the fitted curve and r2 are evaluated by the oracle from these only "
-    "(own anisotropy scaling and chordal conversion), never through the curve closure of fit.py",
-    "scipy.optimize.least_squares with ftol=xtol=gtol=1e-8 started within 30 % of a zero-residual optimum reaches it to "
-    "1e-4*sill on the curve (accuracy budget four orders above what is observed); parameter recovery is asserted only where "
-    "the observed residual together with the finite-difference sensitivity of the oracle curve pins the parameter",
+    "CovModel.variogram(r) of a model whose parameters were set through constructor / public setters (var last) is the "
+    "model's variogram (C03, C14). Data, fitted curve, r2 and cost are evaluated by the oracle from this only (own "
+    "anisotropy scaling x/anis_i and chordal conversion 2R sin(d/2R)), never through the curve closure of fit.py",
+    "scipy.optimize.least_squares (ftol=xtol=gtol=1e-8, as handed through by fit_variogram) started within 30 % of a "
+    "zero-residual optimum of a smooth, well-conditioned (smin >= 0.03), well-scaled problem with at most one free shape "
+    "parameter reaches it to 1e-4*sill on the curve (observed <= 1e-6*sill for interior optima); a failure of this is only "
+    "reported if the same scipy call on the oracle's own curve does reach the data (reference fit) and the result is not "
+    "a secondary optimum of the oracle's cost",
+    "trust-region steps are only accepted when the cost decreases (scipy trf/dogbox), hence cost(result) <= cost(start)",
 ]
 
 # ---------------------------------------------------------------------------
@@ -63,16 +71,18 @@ ASSUMPTIONS = [
 # construction in the generator; everything else is still asserted there.
 KNOWN = {
     # sill constrained and var fitted: _post_fitting reads the derived nugget
-    # from the *last curve evaluation* instead of recomputing sill - var(popt)
-    # -> var + nugget != sill by ~1e-8 relative (model and returned dict).
+    # from the *last curve evaluation* (a finite-difference or rejected trial
+    # point) instead of recomputing sill - var(popt) -> var + nugget != sill by
+    # ~1e-8 relative with 'trf', more with 'dogbox' (model and returned dict).
     "sill_stale_nugget": True,
     # TPL models, var not fitted: _post_fitting sets len_scale/hurst/len_low of
-    # popt without resetting var (var_save) -> model.var drifts by ~1e-8
-    # relative from the prescribed value; returned dict["var"] != model.var.
+    # popt without resetting var (var_save) -> model.var drifts from the
+    # prescribed value (1e-9..1e-5 relative with 'trf', up to percents with
+    # 'dogbox'); the returned dict["var"] is right, so dict != model state.
     "tpl_stale_var": True,
     # method="dogbox" places iterates exactly on the bounds handed to curve_fit;
-    # where the model's bound is open (var>0, len_scale>0, hurst, open custom
-    # bounds) the parameter setter inside the curve closure raises ValueError.
+    # where the model's bound is open (var>0, len_scale>0, hurst, anis, open
+    # custom bounds) the parameter setter inside the curve closure raises.
     "dogbox_open_bound": True,
     # TPL models with finite custom bounds on var: setting len_scale / hurst /
     # len_low inside the curve closure changes var (= var_raw * var_factor)
@@ -81,10 +91,10 @@ KNOWN = {
     "tpl_var_bounds_transient": True,
     # curve_fit is called with scipy's absolute default tolerances on an
     # unscaled problem: gtol=1e-8 applies to J^T r / sigma^2, so the attainable
-    # relative accuracy of the curve is ~ 1e-8 * sigma^2 * max(1, len_scale) /
-    # (sill^2 * smin): small variograms (var <~ 1e-2) or weights="inv" with lags
-    # in large units (sigma = 1 + x, km/m) stop early or do not move at all.
-    # Region skipped for the recovery assertions: EPS_G > CURVE_TOL.
+    # relative accuracy of the curve is ~ EPS_G = 1e-8 * sigma^2 * max(1, len_scale)
+    # * sqrt(k) / (sill^2 * smin): small variograms (var <~ 1e-2) or
+    # weights="inv" with lags in large units (sigma = 1 + x; km, m) stop early
+    # or do not move at all.  Recovery is not asserted where EPS_G > CURVE_TOL.
     "scipy_abs_tolerance": True,
     # weights given as a plain list (documented: "list: weights given per bin")
     # together with directional data raises AttributeError ('list'.size).
@@ -92,6 +102,33 @@ KNOWN = {
 }
 
 EPS = float(np.finfo(float).eps)
+NEAR = 0.3  # "start near the truth": within 30 % of the parameter's scale
+CURVE_TOL = 1e-4  # * sill   (DESIGN C10 (i)); interior optima are observed at <= 1e-6
+R2_TOL = 1e-6  # r2 >= 1 - R2_TOL, inflated like the square of the curve budget
+PARAM_TOL = 1e-3  # relative to the parameter's natural scale
+# scipy's termination thresholds are absolute (gtol=1e-8 on the gradient of
+# 0.5*sum((r/sigma)^2), scaled by the distance to the bounds in 'trf').  At an
+# optimum sitting on a bound (nugget=0, len_low=0, alpha=2, var=sill) at
+# distance d the criterion reads d * sum(r/sigma^2) <= 1e-8 with r ~ d, i.e. it
+# is met at d ~ 1e-4 * sigma in *data units*, whatever the sill is (observed:
+# 4e-5 * sigma).  For optima on a bound the curve budget therefore carries the
+# absolute term 3*sqrt(gtol)*max(sigma).
+ABS_TOL = 3e-4
+GTOL = 1e-8  # scipy default handed through by fit_variogram
+# Recovery of the curve is only demanded in the identifiable configuration:
+# SMIN bounds the smallest singular value of the relative Jacobian of the
+# oracle curve at the truth (curve change / sill per unit relative parameter
+# change in the least sensitive direction): below 0.03 a 30 % move along that
+# direction changes the curve by < 1 % of the sill - the flat curved valleys
+# where trust-region solvers legitimately stop on xtol/ftol or run out of
+# evaluations; with >= 2 free shape parameters (TPL: hurst, alpha, len_low) the
+# cost has secondary optima inside the +-30 % box (observed: 'trf' ends with
+# gtol satisfied at hurst -> 1).  Outside this configuration only the
+# monotone-cost assertion and all state assertions apply.
+SMIN = 0.03
+MAX_SHAPE = 1
+
+GEO_SCALES = [1.0, 57.29577951308232, 6371.0]
 _OPEN_BOUND_MSG = re.compile(r"^([\w-]+) needs to be [<>] (\S+), got: (.*)$")
 
 
@@ -109,30 +146,6 @@ def _hits_open_bound(msg):
         return float(txt) == b
     except ValueError:
         return False
-CURVE_TOL = 1e-4  # * sill   (DESIGN C10 (i))
-# scipy's termination thresholds are absolute (gtol=1e-8 on the gradient of
-# 0.5*sum((r/sigma)^2), scaled by the distance to the bounds in 'trf').  At an
-# optimum sitting on a bound (nugget=0, len_low=0, alpha=2) at distance d the
-# criterion reads d * sum(r/sigma^2) <= 1e-8 with r ~ d, i.e. it is met at
-# d ~ 1e-4 * sigma_eff / sqrt(n) in *data units*, whatever the sill is.  The
-# curve budget therefore carries an absolute term 3*sqrt(gtol)*sigma_eff
-# (sigma_eff = harmonic rms of the sigmas handed to curve_fit).
-ABS_TOL = 3e-4
-R2_TOL = 1e-6  # r2 >= 1 - R2_TOL
-PARAM_TOL = 1e-3  # relative to the parameter's natural scale
-# Recovery of the curve is only demanded in the identifiable configuration:
-# SMIN bounds the smallest singular value of the relative Jacobian of the
-# oracle curve at the truth (curve change / sill per unit relative parameter
-# change in the least sensitive direction): below 0.1 a 30 % move along that
-# direction changes the curve by < 3 % of the sill, the flat curved valleys
-# where trust-region solvers legitimately stop on xtol/ftol or run out of
-# evaluations; with >= 2 free shape parameters (TPL: hurst, alpha, len_low) the
-# cost has secondary optima inside the +-30 % box (observed: 'trf' ends with
-# gtol satisfied at hurst -> 1).  Outside this configuration only the
-# monotone-cost assertion and all state assertions apply.
-SMIN = 0.03
-MAX_SHAPE = 1
-GTOL = 1e-8  # scipy default handed through by fit_variogram
 
 
 def _kinked(truth):
@@ -141,17 +154,10 @@ def _kinked(truth):
     if cls == "Linear" or (cls == "HyperSpherical" and dim == 1):
         return True
     return cls in ("SuperSpherical", "TPLSimple") and opt.get("nu", 2.0) <= 1.0
-NEAR = 0.3
-
-GEO_SCALES = [1.0, 57.29577951308232, 6371.0]
 
 
 # ---------------------------------------------------------------------------
 # small helpers shared by generator and check
-
-
-def _names(cls, dim):
-    return ["var", "len_scale", "nugget"] + list(opt_bounds(cls, dim).keys())
 
 
 def _opt_order(cls):
@@ -301,8 +307,7 @@ def _curve(case, vals, anis, x):
     truth = case["truth"]
     m = _oracle_model(truth)
     with quiet():
-        # park var at a harmless value first: for TPL models var follows the
-        # other parameters until it is set (last) to its value
+        # var last: for TPL models var follows the other parameters until it is set
         m.len_scale = vals["len_scale"]
         m.nugget = vals["nugget"]
         for k in _opt_order(truth["cls"]):
@@ -628,7 +633,7 @@ def gen_fit(draw, tier="quick", mode="iso", kind="recover"):
     elif wk == "call_const":
         weights["c"] = draw(logfloat(0.1, 10.0))
     if wk == "list" and mode == "dir" and KNOWN["weights_list_directional"]:
-        weights["kind"] = "array"  # excluded by construction (finding); probed in 'errors'
+        weights["kind"] = "array"  # excluded by construction (finding)
     loss = draw(st.sampled_from(["soft_l1", "soft_l1", "linear", "linear", "huber"]))
     w_max = max(weights["w"]) if "w" in weights else weights.get("c", 1.0)
     if loss != "linear" and not wild and NEAR * sill_t * w_max > 1.0 and draw(st.integers(0, 3)) != 0:
@@ -1039,7 +1044,6 @@ def check_fit(case, rec):
         (tv[nm] - bnd[nm][0]) <= 1e-9 * _scale(nm, tv) or (bnd[nm][1] - tv[nm]) <= 1e-9 * _scale(nm, tv) for nm in free
     ) or (plan["var_cap"] is not None and "var" in free and plan["var_cap"] - tv["var"] <= 1e-9 * sill_t)
     tol_c = CURVE_TOL * sill_t + (ABS_TOL * float(np.max(sig)) if at_bound else 0.0)
-    rec.note("smin", None if sens is None else sens[1])
     constraint_active = (
         any(stat[nm] != "fit" for nm in names) or plan["sill"] is not None or bool(case["bounds"]) or mode != "iso" or not isinstance(anis_arg, bool)
     )
@@ -1222,7 +1226,6 @@ def check_fit(case, rec):
     if not expect_recovery:
         return
     err = float(np.max(np.abs(resid)))
-    rec.note("stats", {"at_bound": at_bound, "sill": sill_t, "smin": None if sens is None else sens[1], "err": err / sill_t, "cls": cls, "method": case["method"], "k": k_free})
     rec.label("optimum_on_bound" if at_bound else "optimum_interior")
     if err > tol_c:
         if _is_local_optimum(case, names, free, anis_fit, plan, bnd, post, x, y, sig, c1):
@@ -1235,7 +1238,6 @@ def check_fit(case, rec):
             # the same scipy call on the oracle's own curve does not get there either
             rec.label("scipy_limit_confirmed_by_reference_fit")
             return
-        rec.note("reference_fit_err", ref_err)
     rec.discrepancy("curve", err, tol_c)
     require(
         err <= tol_c,
@@ -1552,7 +1554,7 @@ SUBS = [
     Sub("recover_iso", _g("iso", "recover"), check_fit, quick=1200, thorough=24000, shards_quick=4, shards_thorough=6, shrink_quick=False),
     Sub("recover_dir", _g("dir", "recover"), check_fit, quick=600, thorough=12000, shards_quick=3, shards_thorough=4, shrink_quick=False),
     Sub("recover_latlon", _g("latlon", "recover"), check_fit, quick=400, thorough=6000, shards_quick=2, shards_thorough=2, shrink_quick=False),
-    Sub("constrain_iso", _g("iso", "constrain"), check_fit, quick=900, thorough=15000, shards_quick=3, shards_thorough=2, shrink_quick=False),
-    Sub("constrain_dir", _g("dir", "constrain"), check_fit, quick=500, thorough=8000, shards_quick=2, shards_thorough=1, shrink_quick=False),
+    Sub("constrain_iso", _g("iso", "constrain"), check_fit, quick=900, thorough=12000, shards_quick=3, shards_thorough=2, shrink_quick=False),
+    Sub("constrain_dir", _g("dir", "constrain"), check_fit, quick=500, thorough=5000, shards_quick=2, shards_thorough=1, shrink_quick=False),
     Sub("errors", gen_errors, check_errors, quick=300, thorough=3000, shards_quick=1, shards_thorough=1),
 ]
